@@ -219,6 +219,43 @@ func runC05(c *Ctx, r *Report, tier string) {
 			c.reqRule(r, "INI", ip, s, "Set only in normal mode", litHas(false, "IniParser.ParseAsDefaults(P0)"), "¬ParseAsDefaults", nil)
 		}
 	}
+	// the snapshot records exactly the options whose defaults are already prevented (set explicitly, or by an earlier INI file)
+	nSnap := 0
+	// the snapshot map is the one consulted by the as-defaults skip
+	var snapMap ssa.Value
+	for _, b := range c.blocks(ip) {
+		if iff, ok := b.Instrs[len(b.Instrs)-1].(*ssa.If); ok {
+			if lk, ok := c.resolve(iff.Cond).(*ssa.Lookup); ok && c.term(lk.X) == "makemap[map[*Option]bool]" {
+				if _, req := c.Requires(ip, isInstr(iff), litHas(true, "IniParser.ParseAsDefaults(P0)"), nil); req {
+					snapMap = c.resolve(lk.X)
+				}
+			}
+		}
+	}
+	c.eachInstr(func(fn *ssa.Function, in ssa.Instruction) {
+		mu, ok := in.(*ssa.MapUpdate)
+		if !ok || snapMap == nil || c.resolve(mu.Map) != snapMap {
+			return
+		}
+		root := fn
+		for root.Parent() != nil {
+			root = root.Parent()
+		}
+		if root != ip && !c.actsFor(root, ip) {
+			return
+		}
+		nSnap++
+		key := c.term(mu.Key)
+		_, req := c.Requires(fn, isInstr(in), litIs("Option.preventDefault("+key+")", true), nil)
+		var extra []string
+		for _, d := range c.controlDeps(fn, in.Block()) {
+			if l, ok := c.edgeLit(d.B, d.Succ); ok && !(l.Pos && l.Term == "Option.preventDefault("+key+")") {
+				extra = append(extra, l.String())
+			}
+		}
+		r.Check(req && len(extra) == 0 && c.term(mu.Value) == "true", "INI", c.fname(fn), "snapshot of explicitly set options", c.ipos(in), "explicit[option] = true exactly under option.preventDefault", fmt.Sprintf("preventDefault necessary=%v, other guards: %s", req, strings.Join(extra, "; ")))
+	})
+	r.Check(nSnap == 1, "INI", in_, "one snapshot writer", c.pos(ip.Pos()), "one", fmt.Sprintf("%d", nSnap))
 	// no loop-carried inhibition: no branch inside the entry loops tests a load of Option.preventDefault
 	nLC := 0
 	if outerLoop != nil {
@@ -297,6 +334,30 @@ func runC05(c *Ctx, r *Report, tier string) {
 			}
 		}
 		r.Check(okCat, "ENVKEY", name, "key = namespace + parser delimiter + key", c.pos(fn.Pos()), "prepends the group's namespace and the parser's delimiter", "the namespace concatenation does not use the group's namespace field and the parser's delimiter")
+		// the concatenating walk goes all the way up: it is left only when the walk variable is nil
+		// (a level without a namespace is skipped, not a reason to stop)
+		for _, l := range c.loopsDeep(fn) {
+			hasCat := false
+			for b := range l.Blocks {
+				for _, in := range b.Instrs {
+					if bo, ok := in.(*ssa.BinOp); ok && bo.Op.String() == "+" && (strings.HasPrefix(c.term(bo), "((Group.EnvNamespace(") || strings.HasPrefix(c.term(bo), "((Group.Namespace(")) {
+						hasCat = true
+					}
+				}
+			}
+			if !hasCat {
+				continue
+			}
+			okExit, why := true, ""
+			for _, e := range l.exits() {
+				lit, ok := c.edgeLit(e.B, e.I)
+				if e.B != l.Header || !ok || lit.Pos || !strings.HasPrefix(lit.Term, "nonnil(phi{") {
+					okExit = false
+					why = fmt.Sprintf("the walk can be left from b%d on %v", e.B.Index, lit)
+				}
+			}
+			r.Check(okExit, "ENVKEY", name, "namespace walk reaches the top", c.ipos(l.Header.Instrs[0]), "the only exit is `walk variable == nil`", why+": namespaces above a level without one are dropped")
+		}
 	}
 }
 
